@@ -42,6 +42,7 @@ pub struct State {
     app: Option<DocApp>,
     doc: Vec<DocApp>,
     stash: Vec<String>,
+    frozen: Option<Arc<Dictionary>>,
     pub builtin_xml: String,
 }
 
@@ -115,7 +116,15 @@ pub fn parse_value(t: &[&str], dict: &Arc<Dictionary>) -> Option<AvpValue> {
             Float64::new(f64::from_bits(u64::from_be_bytes(b.try_into().ok()?))).into()
         }
         ["time", s, n] => {
-            let t = chrono::Utc.timestamp_opt(s.parse().ok()?, n.parse().ok()?).single()?;
+            // (10^9 nanoseconds and more: chrono's notation for a leap second, set with `with_nanosecond`, which takes it at
+            // any second; the second itself stays `s`)
+            let n: u32 = n.parse().ok()?;
+            let t = if n >= 1_000_000_000 {
+                use chrono::Timelike;
+                chrono::Utc.timestamp_opt(s.parse().ok()?, 0).single()?.with_nanosecond(n)?
+            } else {
+                chrono::Utc.timestamp_opt(s.parse().ok()?, n).single()?
+            };
             Time::new(t).into()
         }
         ["ipv4", h] => {
@@ -492,6 +501,7 @@ impl State {
             app: None,
             doc: vec![],
             stash: vec![],
+            frozen: None,
             builtin_xml,
         }
     }
@@ -529,6 +539,12 @@ impl State {
                 // C04: whatever was returned can be displayed, inspected, cloned and re-encoded
                 let shown = format!("{}", m);
                 std::hint::black_box(&shown);
+                // ... also into sinks that run out of room part way (a bounded log line): the formatter reports an error, it
+                // does not panic
+                for cap in [0usize, 1, shown.len() / 3, shown.len() / 2, shown.len().saturating_sub(1)] {
+                    let mut sink = Bounded { room: cap };
+                    let _ = std::fmt::write(&mut sink, format_args!("{}", m));
+                }
                 let mut acc = String::new();
                 for a in m.get_avps() {
                     acc_avp(a, &mut acc);
@@ -741,6 +757,8 @@ impl State {
                 // the text handed to the library: rendered from the structure, or the shipped file itself
                 let xml = match rest {
                     [] => render_xml(&doc),
+                    // the text as a file saved "UTF-8 with BOM" reads: the byte-order mark in front
+                    ["bom"] => format!("{}{}", '\u{feff}', render_xml(&doc)),
                     ["builtin"] => self.builtin_xml.clone(),
                     ["file", path] => match std::fs::read_to_string(path) {
                         Ok(x) => x,
@@ -1300,6 +1318,62 @@ impl State {
                 }
                 first
             }
+            ["env", name, value] => {
+                // an environment variable of this process is set (`-`: removed): terminal width, locale - nothing the
+                // library does may depend on them in a way that breaks it
+                if *value == "-" {
+                    std::env::remove_var(name);
+                } else {
+                    std::env::set_var(name, value);
+                }
+                ".".into()
+            }
+            ["freeze"] => {
+                // the dictionary object as it is now is kept (a clone of the object, as an application would keep one for
+                // the messages it has in flight) while the current one goes on changing
+                self.frozen = Some(Arc::new((*self.dict).clone()));
+                ".".into()
+            }
+            ["fbyname", n] => {
+                let n = match unhex_str(n) {
+                    Some(n) => n,
+                    None => return "bad-op".into(),
+                };
+                match &self.frozen {
+                    Some(d) => match Avp::from_name(&n, Unsigned32::new(7).into(), d.clone()) {
+                        Ok(a) => format!("ok:{}:{}:{}", a.get_code(), a.get_vendor_id().map(|v| v.to_string()).unwrap_or_else(|| "-".into()), a.get_flags().mandatory as u8),
+                        Err(_) => "err".into(),
+                    },
+                    None => "bad-op".into(),
+                }
+            }
+            ["sdecnt", n, evs] => {
+                // `sdec` on a runtime that has no time driver (an embedding application need not enable one): the stream
+                // reader needs no timers
+                let (n, evs) = match (n.parse::<usize>().ok(), crate::sio::parse_revs(evs)) {
+                    (Some(n), Some(e)) => (n, e),
+                    _ => return "bad-op".into(),
+                };
+                let dict = self.dict.clone();
+                let rt = tokio::runtime::Builder::new_current_thread().enable_io().build().unwrap();
+                rt.block_on(async move {
+                    let mut stream = crate::sio::Scripted::new(evs, vec![]);
+                    let mut out: Vec<String> = vec![];
+                    for _ in 0..n {
+                        let before = stream.0.lock().unwrap().consumed;
+                        let r = diameter::transport::Codec::decode(&mut stream, dict.clone()).await;
+                        let used = stream.0.lock().unwrap().consumed - before;
+                        match r {
+                            Ok(m) => out.push(format!("ok:{}@{}", dump_msg(&m), used)),
+                            Err(_) => {
+                                out.push(format!("err@{}", used));
+                                break;
+                            }
+                        }
+                    }
+                    out.join(";")
+                })
+            }
             ["iomode", n] => match n.parse::<u32>() {
                 Ok(n) => {
                     crate::sio::IOMODE.with(|m| m.set(n));
@@ -1486,8 +1560,11 @@ impl State {
                     }
                 }
                 // `c<id>`: before the late send the application tries to connect again - to a port nobody listens on
+                // `D`: no late send; the client object itself is dropped right after the sends (a helper that returns only
+                // the futures), the reader task and the futures live on
+                let drop_client = *late == "D";
                 let reconnect = late.starts_with('c');
-                let late: Option<u32> = if *late == "-" { None } else { late.trim_start_matches('c').parse().ok() };
+                let late: Option<u32> = if *late == "-" || drop_client { None } else { late.trim_start_matches('c').parse().ok() };
                 let dict = self.dict.clone();
                 let amode = AMODE.with(|m| m.get());
                 self.rt.block_on(async move {
@@ -1566,6 +1643,12 @@ impl State {
                                 }),
                             });
                         }
+                    }
+                    // (`late` is `None` when the client is dropped, so it is not used again below)
+                    let mut client = client;
+                    if drop_client {
+                        let gone = std::mem::replace(&mut client, DiameterClient::new("127.0.0.1:1", DiameterClientConfig { use_tls: false, verify_cert: false }));
+                        drop(gone);
                     }
                     let mut res: Vec<String> = vec![];
                     for h in futs {
@@ -1784,6 +1867,22 @@ impl<'a> std::io::Read for Frag<'a> {
 impl<'a> std::io::Seek for Frag<'a> {
     fn seek(&mut self, p: std::io::SeekFrom) -> std::io::Result<u64> {
         self.c.seek(p)
+    }
+}
+
+/// a `fmt::Write` sink with room for so many octets, then errors
+struct Bounded {
+    room: usize,
+}
+
+impl std::fmt::Write for Bounded {
+    fn write_str(&mut self, t: &str) -> std::fmt::Result {
+        if t.len() > self.room {
+            self.room = 0;
+            return Err(std::fmt::Error);
+        }
+        self.room -= t.len();
+        Ok(())
     }
 }
 
